@@ -204,6 +204,18 @@ func checkC12(c *Ctx) {
 	checkSessionFlows(c)
 	checkListGoroutines(c)
 	checkTickerTable(c)
+	// the exit rows of every actor's table: what each loop does on its way out (close its event
+	// channel, close/await what feeds it) is what lets everything below it terminate
+	checkFilterSubscriptionTable(c)
+	checkPublisherTable(c)
+	checkSubscriptionTable(c)
+	checkMonitorTable(c)
+	checkControllerTable(c)
+	checkWatcherTable(c)
+	checkSessionTable(c)
+	checkListerTable(c)
+	m := newCacheModel(c)
+	m.checkRunLoop()
 }
 
 func checkC11(c *Ctx) {
